@@ -43,6 +43,19 @@ module.exports = mk({
     // inputs that mention identifiers with the reserved prefix: either refused, or the content must still load
     const e = require('./C06.js').familyE()
     for (const l of e.leaves) leaves.push(Object.assign({}, l, { fam: 'reserved', desc: 'reserved-name ' + l.place }))
+    // option values that end up inside identifiers or names: every identifier-safe prefix, hook names with `$`,
+    // non-ASCII letters and reserved words (member names may be reserved words)
+    const C = require('../grammar/configs')
+    const PREFIXES = [undefined, '', 'zz', '$', 'ñ', '1', '_', 'x'.repeat(300), 'Δ\u200d']
+    const DSTS = ['$hook', 'ñame', 'default', 'class', 'constructor', 'a1']
+    const progs = ['function f(a, b) { return a() + b().trim() + `${a()}` }', 'function f(o) { o.p += f() + 1; return o?.q.concat(f()) }']
+    for (const pre of PREFIXES) for (const dst of [undefined].concat(DSTS)) for (let pi = 0; pi < progs.length; pi++) {
+      const cfg = Object.assign({}, C.FULL)
+      if (pre === undefined) delete cfg.localVarPrefix; else cfg.localVarPrefix = pre
+      if (dst !== undefined) cfg.csiMethods = cfg.csiMethods.map((m) => Object.assign({}, m, { dst }))
+      r.stats.states++; r.stats.transitions++
+      leaves.push({ fam: 'names', key: 'names¦' + String(JSON.stringify(pre)).slice(0, 12) + '¦' + dst + '¦' + pi, code: progs[pi], config: cfg, desc: 'names prefix=' + String(JSON.stringify(pre)).slice(0, 12) + ' dst=' + dst })
+    }
     return { leaves, stats: addStats(r.stats, e.stats) }
   },
   requests (leaf) {
